@@ -31,10 +31,19 @@ var roomB = jid.MustParse("other@conf.example.net/me")
 
 var room = jid.MustParse("room@conf.example.net/me")
 
+// unavailableShape: what else the room puts into the unavailable presence of
+// our own occupant address. 0: nothing; 1: further status codes and the item's
+// nick attribute (as for a nickname change or a removal with a reason).
+// Whatever it carries, it is the occupant's unavailable presence.
+var unavailableShape int
+
 func selfPresence(typ string, from string, extra string) string {
 	t := ""
 	if typ != "" {
 		t = " type='" + typ + "'"
+	}
+	if typ == "unavailable" && unavailableShape == 1 {
+		return fmt.Sprintf(`<presence from='%s' to='me@example.net/res'%s%s><x xmlns='%s'><item affiliation='member' role='participant' nick='renamed'><reason>r</reason></item><status code='110'/><status code='303'/><status code='307'/></x></presence>`, from, t, extra, userNS)
 	}
 	return fmt.Sprintf(`<presence from='%s' to='me@example.net/res'%s%s><x xmlns='%s'><item affiliation='member' role='participant'/><status code='110'/></x></presence>`, from, t, extra, userNS)
 }
@@ -71,6 +80,11 @@ func run(c *nd.Ctx, phase string) nd.Result {
 		}
 	} else if phase == "leave" {
 		lp = leavePlans[c.Choose(len(leavePlans)-1, "room-answers-leave")]
+		unavailableShape = 0
+		if lp == "unavailable" {
+			unavailableShape = c.Choose(2, "unavailable-presence-carries-status-codes-and-nick")
+		}
+		defer func() { unavailableShape = 0 }()
 	} else if phase == "rooms" {
 		// one step of the history is explored, the steps before it are set-up
 		// (run on the canonical schedule)
@@ -303,6 +317,9 @@ func run(c *nd.Ctx, phase string) nd.Result {
 		panic(setupErr)
 	}
 	desc := fmt.Sprintf("join answered by %s, leave answered by %s, %d invitations (shape %d), canceller=%v", jp, lp, ninv, invShape, withCanceller)
+	if unavailableShape == 1 {
+		desc += ", the unavailable presence carries status codes 303/307 and a nick"
+	}
 	if phase == "rooms" {
 		desc = fmt.Sprintf("two rooms: second join answered by %s, leaving the first answered by %s", bp, lp2)
 	}
